@@ -70,3 +70,7 @@ EVLOOP_NOTE = ("Trusted base: the tag-guarded loop-top hook (one line per loop),
 claim("C14", "evloop", "exploration",
       "All enabled sequences over {manifest update, lease closed, hostnames reserved/refused, deploy ok/error, teardown ok/fails-once, shutdown} up to length 4 (quick) / 6 (thorough) are executed, each on a fresh real deploymentManager stepped one message at a time, and the scripted-collaborator call log is judged: cluster operations never overlap, no deploy starts after teardown() was accepted, a closed lease is torn down after its last deploy and its hostnames are released, the last deploy carries the latest manifest. Bounded-exhaustive over message orders; plus randomized free-running schedules.",
       EVLOOP_NOTE, "systematic schedule enumeration of the real event loop via loop-top hook + scripted collaborators; call-log (trace) monitor; race detector auxiliary", "DESIGN.md §5 C14")
+
+claim("C13", "evloop", "fault_enumeration",
+      "For every pipeline point (existing-bid query, group fetch, attribute-signature check, reservation, pricing, bid broadcast) in flight and for the waiting state, each of {order closed, lease won, lease lost, shutdown, bid timeout, unrelated event} is injected as the stepped loop's only ready input and the in-flight step is then released with success or failure; plus every single step failure, ineligibility, price at/above the maximum and existing bid found / not found (170 deterministic scenarios, each on a fresh real order), plus free-running randomized schedules. The scripted call log is judged at termination: <=1 create-bid, price <= order maximum, bid only after a successful reservation; if not won, every successful reservation released and a close-bid submitted for any placed or pre-existing bid; the order terminates.",
+      EVLOOP_NOTE, "fault/event injection at every pipeline point of the stepped real loop; call-log monitor; race detector auxiliary", "DESIGN.md §5 C13")
